@@ -3,7 +3,8 @@ path."""
 import itertools
 import json
 
-from vp.runner import Result, Deadline, exc_site
+from vp.runner import (Result, Deadline, exc_site, time_limit,
+                       CaseTimeout)
 from vp.gen import docs as gdocs, paths as gpaths
 from vp.model import query as mq
 from vp.model.compare import Unspecified
@@ -91,16 +92,25 @@ def purity_case(doc, text, ptext, res, segs=None):
     for entry in entries:
         res.evaluations += 1
         try:
-            if entry == "exists":
-                proc.exists(path)
-            elif entry == "required":
-                for _ in proc.get_nodes(path, mustexist=True):
-                    pass
-            else:
-                for _ in proc.get_nodes(path, mustexist=False):
-                    pass
+            with time_limit(8):
+                if entry == "exists":
+                    proc.exists(path)
+                elif entry == "required":
+                    for _ in proc.get_nodes(path, mustexist=True):
+                        pass
+                else:
+                    for _ in proc.get_nodes(path, mustexist=False):
+                        pass
         except YAMLPathException:
             pass
+        except (CaseTimeout, MemoryError) as exc:
+            # e.g. a query appending its results to the very list it reads:
+            # the document grows until time or memory runs out
+            res.fail({"clause": "query-leaves-document-unchanged",
+                      "entry": entry, "outcome": "does-not-return"},
+                     {"doc": text, "path": ptext, "entry": entry},
+                     "%s while evaluating the query" % type(exc).__name__)
+            return True
         except Exception as exc:
             res.label("crash(see C15):%s" % type(exc).__name__)
         after = snap(doc)
